@@ -46,7 +46,7 @@ def do_replay(path: str) -> int:
         ok, info = mod.replay_custom(rec)
         res = {'ok': ok, 'exc': info}
     else:
-        res = run_replay(rec['module'], rec['call'])
+        res = run_replay(rec['module'], rec['call'], history=rec.get('history'))
     log(f'replay {rec["module"]}: {rec.get("call", rec.get("what"))} -> {res}')
     if res['ok'] is False:
         log(f'VIOLATION property={rec["property"]} replay={path}')
@@ -133,6 +133,8 @@ def main() -> int:
         path = os.path.join(rdir, f'{args.tier}_{len(violations)}.json')
         rec = {'property': pid, 'module': ob.module or modname, 'call': ob.call,
                'obligation': ob.name, 'detail': ob.detail, 'key': key}
+        if getattr(ob, 'replay_history', None):
+            rec['history'] = ob.replay_history
         spec_by_name = {sp.name: sp for sp in getattr(mod, 'SPECS', [])}
         base = ob.name.split('__')[0]
         if base in spec_by_name and spec_by_name[base].replay_fn:
